@@ -74,6 +74,17 @@ func ruleHostile(c *core.Ctx) {
 	for _, mb := range broadMembers(c.Tier, gen.DefaultConfig()) {
 		runMember(c, mb, ruleSet("A-PANIC", "A-GENERR"), 64, func(w *fam.World, fm *fam.FileModel) []fam.Issue { return nil })
 	}
+	// `{"$ref": "#"}` — a reference to the document itself is valid JSON Schema (the usual way to write a recursive root)
+	for _, pos := range []string{"property", "items"} {
+		self := &fam.Spec{RefRootOf: "#", Kind: "object"}
+		sp := self
+		if pos == "items" {
+			sp = &fam.Spec{Kind: "array", Items: self}
+		}
+		mb := member{name: "a reference to the document itself (#) as " + pos, cfg: gen.DefaultConfig(),
+			root: &fam.Spec{Kind: "object", Props: []*fam.Prop{{Label: "n", Spec: &fam.Spec{Kind: "integer"}, Required: true}, {Label: "self", Spec: sp}}}}
+		runMember(c, mb, ruleSet("A-PANIC", "A-GENERR"), 64, func(w *fam.World, fm *fam.FileModel) []fam.Issue { return nil })
+	}
 	// a referenced file is processed as a whole: an ungeneratable definition anywhere in it fails the run (also without $id)
 	ruleMultiSel(c, ruleSet("A-SILENT", "A-ROUTE", "A-GENERR"), 2, "two files without $id")
 	c.Floor("families", c.Counts["members"], 300, "valid family members generated without panic")
